@@ -295,15 +295,9 @@ func runC15(e *Engine, r *Report) {
 		addChunk := e.Func("(*internal/rsm.SnapshotValidator).AddChunk")
 		reset := e.Func("(*internal/transport.Chunk).reset")
 		resetL := e.Func("(*internal/transport.Chunk).resetLocked")
-		isDrop := func(in ssa.Instruction) bool {
-			switch c := in.(type) {
-			case *ssa.Call:
-				return (reset != nil && e.CallsTo(c, reset)) || (resetL != nil && e.CallsTo(c, resetL))
-			case *ssa.Defer:
-				return (reset != nil && e.CallsTo(c, reset)) || (resetL != nil && e.CallsTo(c, resetL))
-			}
-			return false
-		}
+		isDrop := e.throughHelpers(func(c ssa.CallInstruction) bool {
+			return (reset != nil && e.CallsTo(c, reset)) || (resetL != nil && e.CallsTo(c, resetL))
+		})
 		n := 0
 		for _, b := range al.Blocks {
 			if len(b.Instrs) == 0 {
